@@ -208,6 +208,9 @@ func (torrent *Torrent) MetadataComplete() error {
 	if info.PieceLength%config.ChunkSize != 0 {
 		return errors.New("odd sized piece")
 	}
+	if info.PieceLength == 0 {
+		return errors.New("zero piece length")
+	}
 	hashes := make([]hash.Hash, 0, len(info.Pieces)/20)
 	for i := 0; i < len(info.Pieces)/20; i++ {
 		hashes = append(hashes, info.Pieces[i*20:(i+1)*20])
